@@ -7,6 +7,8 @@ Correspondence areas (model vs. real code, all 16 configurations x {f64, f128}):
   parse  FromString and UnmarshalText of literals, near misses and arbitrary byte strings (value / err / exp)
   as     As / CheckedAs for the eleven integer target types
   txtfn  txt.Unquote, txt.CommaFromStringNum on arbitrary bytes
+  fltm   the float branch at the executed Lean instance (Model/FixedTextFloat.lean over GoSem.F64): `cfm` = As / CheckedAs to
+         float32 / float64 bit for bit, `pf` = strconv.ParseFloat of decimal texts, `ff` = strconv.FormatFloat(x,'f',-1,bits)
   (val also: `cfg` = MaxDecimalDigits/Multiplier of both packages, `ext` = f128.Maximum/Minimum; txtfn also: `commai` =
   txt.Comma[T] of every integer type)
 Every harness line runs under a 2.5 s deadline (`hang`; after three hangs the rest of the stream is skipped).
@@ -80,6 +82,9 @@ def run(ctx):
              theorem=thm % "checkedAs_int_iff64 / checkedAs_int_iff128 / as_eq_checkedAs64 / as_eq_checkedAs128")
     ctx.diff(area="txtfn", driver="drv_c04", n={"quick": 30000, "thorough": 1000000},
              theorem=thm % "unquote_quoted / unquote_bare / unquote_short / comma_only_adds_commas")
+    ctx.diff(area="fltm", driver="drv_c04", n={"quick": 40000, "thorough": 2000000},
+             tagger=lambda l, o: "fltm:" + l.split(" ", 1)[0] + (":" + o.split(" ")[-1].split(":", 1)[0] if l.startswith("cfm") else ""),
+             theorem=thm % "checkedAs_float_go64 / checkedAs_float_go128_sound / parseFloat_toString / formatFloat_roundtrip")
     _oracle(ctx, "float", {"quick": 60000, "thorough": 3000000},
             "CheckedAs/As to float32/float64: succeeds iff the shortest round-trip decimal of the float nearest to "
             "raw/10^D denotes exactly raw/10^D (big.Rat + strconv)")
